@@ -42,6 +42,15 @@ def gen_case(rng, tier, idx):
         prof.update({"soils": ["Paddy", "Clay", "SiltClay", "SandyClay", "ClayLoam"], "archetypes": ["tropical", "temperate"], "station_p": 0.0,
                      "event_kinds": ["storm", "storm", "wet_spell"], "events_per_year": 4.0, "sat_start_p": 0.5, "custom_soil_p": 0.0,
                      "n_seasons": [1, 2, 3], "off_season_p": 0.7})
+    pond = idx % 4 == 1
+    if pond:
+        # shallow ponds behind low bunds that fill (storms, irrigation) and are emptied by evaporation again and again: the
+        # branches that adjust evaporation for standing water are where mulch / wetted-surface settings get read
+        kind = "field"
+        prof.update({"soils": ["Paddy", "Clay", "SiltClay", "SandyClay"], "archetypes": ["tropical", "warm", "semiarid"], "station_p": 0.0,
+                     "event_kinds": ["storm", "storm", "wet_spell", "et0_spike", "drought"], "events_per_year": 5.0, "custom_soil_p": 0.0,
+                     "n_seasons": [1, 2], "off_season_p": 0.6, "bunds": 1.0, "field_p": 1.0, "fallow_field_p": 0.5, "mulch_p": 0.0,
+                     "z_bund_choices": [0.02, 0.05, 0.1], "irr_methods": [0, 2, 5, 5, 3], "gw": 0.0, "sensible_planting_p": 0.9})
     spec = gen_spec(rng, prof)
     toggles = []
 
@@ -51,7 +60,11 @@ def gen_case(rng, tier, idx):
                 "bund_water": rng.choice([0, 50, 200]), "pct": rng.choice([-30, -10, 15, 30])}
         return {"t": t, "which": which, "args": args}
 
-    if kind in ("field", "combo"):
+    if pond:
+        tg = field_toggle("field")
+        tg["t"] = rng.choice(["mulch_params_off", "mulch_cover0", "mulch_factor0"])
+        toggles.append(tg)
+    elif kind in ("field", "combo"):
         toggles.append(field_toggle(rng.choice(["field", "fallow_field"])))
         if rng.random() < 0.4:
             toggles.append(field_toggle(rng.choice(["field", "fallow_field"])))
